@@ -1,0 +1,70 @@
+// SPDX-FileCopyrightText: 2026 The Pion community <https://pion.ly>
+// SPDX-License-Identifier: MIT
+
+//go:build verif
+
+package nack
+
+// Machine-checked contracts (comment-only; read by /verif/govc, never compiled into a normal build).
+//
+// Ghost model of the NACK generator's receive log, taken from the property statement (C03):
+//   G[x]  : x was received and is still within `size` behind the highest sequence number `end`
+//   F     : distance from the first packet ever received to `end` (so "after the first packet" is end-x < F)
+//
+//@ ghost (receiveLog) G [uint16]bool
+//@ ghost (receiveLog) F uint64
+//@
+//@ def bit(s *receiveLog, x uint16) bool := (s.packets[(x & (s.size - 1)) / 64] & (uint64(1) << ((x & (s.size - 1)) % 64))) != 0
+//@
+//@ pred wf(s *receiveLog) := pow2(s.size) && s.size >= 64 && len(s.packets) == int(s.size / 64) && s.F <= 65536
+//@
+//@ pred inv(s *receiveLog) := wf(s) && s.end - s.lastConsecutive <= s.size && (!s.started ==> s.end == s.lastConsecutive) && (s.started ==>
+//@        s.G[s.end]
+//@     && uint64(s.end - s.lastConsecutive) <= s.F
+//@     && (forall x uint16 :: s.G[x] ==> s.end - x < s.size && uint64(s.end - x) <= s.F)
+//@     && (forall x uint16 :: s.end - x < s.end - s.lastConsecutive ==> (bit(s, x) <==> s.G[x]))
+//@     && (forall x uint16 :: s.end - s.lastConsecutive <= s.end - x && s.end - x < s.size && uint64(s.end - x) <= s.F ==> s.G[x]))
+//@
+//@ # the set the property says must be requested at a tick
+//@ pred missing(s *receiveLog, skip uint16, x uint16) := s.started && skip <= s.end - x && s.end - x < s.size && uint64(s.end - x) < s.F && !s.G[x]
+//@
+//@ func (*receiveLog).fixLastConsecutive
+//@   requires wf: wf(s)
+//@   requires dist: s.end - s.lastConsecutive <= s.size
+//@   modifies s.lastConsecutive
+//@   ensures forward: s.lastConsecutive - old(s.lastConsecutive) <= old(s.end - s.lastConsecutive)
+//@   ensures all_set: forall x uint16 :: x - old(s.lastConsecutive) - 1 < s.lastConsecutive - old(s.lastConsecutive) ==> bit(s, x)
+//@   loop 1 invariant range: i - old(s.lastConsecutive) - 1 <= s.end - old(s.lastConsecutive)
+//@   loop 1 invariant all_set: forall x uint16 :: x - old(s.lastConsecutive) - 1 < i - old(s.lastConsecutive) - 1 ==> bit(s, x)
+//@   loop 1 decreases s.end + 1 - i
+//@
+//@ func (*receiveLog).add
+//@   requires inv: inv(s)
+//@   modifies s.packets[*], s.end, s.started, s.lastConsecutive, s.m
+//@   ghost s.G := ite(!old(s.started), (lambda x uint16 :: x == seq),
+//@                ite(seq - old(s.end) == 0, old(s.G),
+//@                ite(seq - old(s.end) < 32768, (lambda x uint16 :: x == seq || (old(s.G)[x] && seq - x < s.size)),
+//@                ite(old(s.end) - seq < s.size && uint64(old(s.end) - seq) <= old(s.F), (lambda x uint16 :: x == seq || old(s.G)[x]), old(s.G)))))
+//@   ghost s.F := ite(!old(s.started), 0, ite(seq - old(s.end) < 32768, ite(old(s.F) + uint64(seq - old(s.end)) > 65536, 65536, old(s.F) + uint64(seq - old(s.end))), old(s.F)))
+//@   ensures inv: inv(s)
+//@   ensures started: s.started
+//@   ensures highest: s.end == ite(!old(s.started) || seq - old(s.end) < 32768, seq, old(s.end))
+//@   loop 1 invariant range: i - old(s.end) - 1 <= seq - old(s.end) - 1
+//@   loop 1 invariant cleared: forall x uint16 :: ((x - old(s.end) - 1) & (s.size - 1)) < i - old(s.end) - 1 ==> !bit(s, x)
+//@   loop 1 invariant kept: forall x uint16 :: ((x - old(s.end) - 1) & (s.size - 1)) >= i - old(s.end) - 1 ==> (bit(s, x) <==> old(bit(s, x)))
+//@   loop 1 decreases seq - i
+//@
+//@ func (*receiveLog).missingSeqNumbers
+//@   requires inv: inv(s)
+//@   requires scratch: len(missingPacketSeqNums) >= int(s.size)
+//@   modifies missingPacketSeqNums[*], s.m
+//@   ensures sound: forall j int :: 0 <= j && j < len(result) ==> missing(s, skipLastN, result[j])
+//@   ensures complete: forall x uint16 :: missing(s, skipLastN, x) ==> (exists j int :: 0 <= j && j < len(result) && result[j] == x)
+//@   ensures ascending: forall j int, k int :: 0 <= j && j < k && k < len(result) ==> s.end - result[j] > s.end - result[k]
+//@   ensures bounded: len(result) <= int(s.size)
+//@   loop 1 invariant range: i - s.lastConsecutive - 1 <= until - s.lastConsecutive
+//@   loop 1 invariant cbound: 0 <= c && c <= int(i - s.lastConsecutive - 1)
+//@   loop 1 invariant sound: forall j int :: 0 <= j && j < c ==> missingPacketSeqNums[j] - s.lastConsecutive - 1 < i - s.lastConsecutive - 1 && !bit(s, missingPacketSeqNums[j])
+//@   loop 1 invariant complete: forall x uint16 :: x - s.lastConsecutive - 1 < i - s.lastConsecutive - 1 && !bit(s, x) ==> (exists j int :: 0 <= j && j < c && missingPacketSeqNums[j] == x)
+//@   loop 1 invariant ascending: forall j int, k int :: 0 <= j && j < k && k < c ==> missingPacketSeqNums[j] - s.lastConsecutive < missingPacketSeqNums[k] - s.lastConsecutive
+//@   loop 1 decreases until + 1 - i
